@@ -382,7 +382,12 @@ func main() {
 	lib.Main(&lib.Harness{
 		Prop: "C16", Level: "exploration",
 		Shards: func(string) int { return 8 },
-		Budget: func(string) time.Duration { return 5 * time.Minute },
+		Budget: func(tier string) time.Duration {
+			if tier == "thorough" {
+				return 20 * time.Minute
+			}
+			return 5 * time.Minute
+		},
 		Run:    run, Replay: replay,
 		Evidence: func(m *lib.Merged) map[string]any {
 			return map[string]any{
